@@ -430,7 +430,7 @@ pub fn run_property(p: &dyn Property, opt: &Options) -> i32 {
             continue;
         }
         violations += 1;
-        let dir = format!("{}/replays/{}", opt.root, p.id());
+        let dir = format!("{}/{}", std::env::var("VERIF_REPLAY_DIR").unwrap_or_else(|_| format!("{}/replays", opt.root)), p.id());
         let _ = std::fs::create_dir_all(&dir);
         let path = format!("{}/{}-{}-{}.json", dir, opt.seed, idx, violations);
         let replay = J::obj()
